@@ -20,7 +20,14 @@ Inductive jwecase :=
 | CEncCompactK (t : otable) (g : registry) (o : eobj) (d : edraw) (k : kkey) (sk : option kkey)
                (expect : res bytes)
 | CEncJsonK (t : otable) (g : registry) (o : eobj) (d : edraw) (ks : list (kkey * option kkey))
-            (expect : res pv).
+            (expect : res pv)
+(* with the registry selection of the entry point (algorithms= / registry= / neither / both) *)
+| CDecCompactSel (t : otable) (algs : option (list str)) (reg : option registry) (value : bytes) (k : key)
+                 (sender : option key) (expect : res (bytes * pv))
+| CDecJsonSel (t : otable) (algs : option (list str)) (reg : option registry) (data : pv) (keys : list key)
+              (sender : option key) (expect : res (bytes * pv))
+(* re-encryption of an existing message object (prior base64_segments) *)
+| CEncJsonPrior (t : otable) (g : registry) (prior : list (str * bytes)) (o : eobj) (d : edraw) (expect : res pv).
 
 Definition nokey : key := {| k_kty := []; k_crv := []; k_priv := false; k_id := [] |}.
 
@@ -41,6 +48,9 @@ Definition jwe_run (c : jwecase) : jweout :=
   | CDecJsonK t g d src ss _ => OD (dec_obs (decrypt_json_k (table_oracles t) g d src ss))
   | CEncCompactK t g o d k sk _ => OB (encrypt_compact_k (table_oracles t) g o d k sk)
   | CEncJsonK t g o d ks _ => OP (encrypt_json_k (table_oracles t) g o d ks)
+  | CDecCompactSel t a r v k s _ => OD (dec_obs (decrypt_compact (table_oracles t) (jwe_sel a r) v k s))
+  | CDecJsonSel t a r d ks s _ => OD (dec_obs (decrypt_json (table_oracles t) (jwe_sel a r) d ks nokey s))
+  | CEncJsonPrior t g p o d _ => OP (encrypt_json_obj (table_oracles t) p g o d)
   end.
 
 Definition jwe_check (c : jwecase) : bool :=
@@ -53,6 +63,9 @@ Definition jwe_check (c : jwecase) : bool :=
   | CDecJsonK _ _ _ _ _ e, OD r => res_eqb pair_eqb r e
   | CEncCompactK _ _ _ _ _ _ e, OB r => res_eqb beqb r e
   | CEncJsonK _ _ _ _ _ e, OP r => res_eqb pv_eqb r e
+  | CDecCompactSel _ _ _ _ _ _ e, OD r => res_eqb pair_eqb r e
+  | CDecJsonSel _ _ _ _ _ _ e, OD r => res_eqb pair_eqb r e
+  | CEncJsonPrior _ _ _ _ _ e, OP r => res_eqb pv_eqb r e
   | _, _ => false
   end.
 
